@@ -84,3 +84,11 @@ func init() {
 		Assume: []string{"composition step: for an affine acceptance condition A.x=c, x and x^e are both accepted only if A.e=0 (one line of linear algebra, not a solver query)"},
 	})
 }
+
+func init() {
+	register(&PropCheck{
+		ID: "C17", Pkgs: []string{"frame", "segment"}, FnRe: `^VerifC17_`, Level: "model_checking",
+		Gen:  genC17,
+		Rule: "one harness per type with a DeepCopy method found by go/types in the current tree; a case is one shape (all sites populated with one / two elements, all nil, all empty, each single site nil or empty) with every scalar symbolic; equality is reflect.DeepEqual-like and generated from the type; separation is computed on the engine's concrete heap",
+	})
+}
